@@ -554,7 +554,9 @@ pub fn run_subcheck(prop_id: &str, sc: &SubCheck, tier_thorough: bool, seed: u64
     let mut exhaustive = false;
     match sc.kind {
         Kind::Generated { words, max_items } => {
-            let n = ((if tier_thorough { sc.thorough } else { sc.quick }) as f64 * scale).ceil() as u64;
+            // the thorough budgets written in the property tables are multiplied by 3 (they were sized before the
+            // evaluators were measured; a thorough run of a property now takes 3-15 minutes on 16 cores)
+            let n = ((if tier_thorough { sc.thorough * 3 } else { sc.quick }) as f64 * scale).ceil() as u64;
             let per = (n + threads as u64 - 1) / threads as u64;
             let results: Vec<(Stats, Option<Failure>)> = std::thread::scope(|s| {
                 let hs: Vec<_> = (0..threads)
